@@ -7,6 +7,7 @@ import (
 	"github.com/ProtonMail/gluon/imap"
 	"github.com/ProtonMail/gluon/internal/state"
 	"github.com/ProtonMail/gluon/internal/verifdb"
+	"github.com/ProtonMail/gluon/limits"
 )
 
 // ---- C06: sequences of message updates with sessions watching, against a reference model ----
@@ -243,3 +244,45 @@ func verifdbLookup(d *verifdb.DB, remote imap.MessageID) (imap.InternalMessageID
 }
 
 var verifdbErr = context.Canceled
+
+// VerifC17Connector: connector-driven additions against the per-mailbox message limit: whatever mix of mailboxes an
+// update touches, afterwards no mailbox exceeds the limit, and an update that is refused leaves the index as it
+// was (all or nothing).
+func VerifC17Connector() {
+	u, d, st := verifUser()
+	u.imapLimits = limits.NewIMAPLimits(100, 2, 1000, 1000)
+	a := d.AddBox("A", "mb-A", 2)
+	b := d.AddBox("B", "mb-B", 3)
+	for i, box := range []*verifdb.Box{a, b} {
+		n := vsymChoice("initial", 3)
+		for j := 0; j < n; j++ {
+			id := imap.NewInternalMessageID()
+			remote := imap.MessageID([]string{"ra-", "rb-"}[i] + string(rune('0'+j)))
+			d.AddMsg(id, remote)
+			box.AddRow(id, remote, imap.UID(j+1), false, false)
+			st.data[id] = []byte("X-Pm-Gluon-Id: " + id.String() + "\r\n" + verifLit1)
+		}
+	}
+	boxSets := [][]imap.MailboxID{{"mb-A"}, {"mb-B"}, {"mb-A", "mb-B"}, {"mb-B", "mb-A"}}
+	var up imap.Update
+	switch vsymChoice("kind", 2) {
+	case 0:
+		up = imap.NewMessagesCreated(false, verifMessageCreated("rn-1", verifLit2, boxSets[vsymChoice("set1", 4)]...), verifMessageCreated("rn-2", verifLit2, boxSets[vsymChoice("set2", 4)]...))
+	case 1:
+		if len(a.Rows) == 0 {
+			vsymAssume(false)
+		}
+		up = imap.NewMessageMailboxesUpdated(a.Rows[0].Remote, boxSets[vsymChoice("set1", 4)], imap.NewFlagSet())
+	}
+	before := verifSnap(d)
+	err := u.apply(context.Background(), up)
+	for _, box := range []*verifdb.Box{a, b} {
+		vsymAssert(len(box.Rows) <= 2, "no mailbox exceeds the configured maximum message count after a connector update")
+	}
+	if err != nil {
+		vsymCover("connector-refused")
+		vsymAssert(verifSnap(d).equal(before), "a refused connector update leaves the index as it was (no partial application)")
+	} else {
+		vsymCover("connector-accepted")
+	}
+}
